@@ -44,7 +44,11 @@ def l_text(toks):
 
 _KIND = {"b": "b", "bold": "b", "i": "i", "italic": "i", "u": "u", "underline": "u"}
 _TAG = re.compile(r"<(/?)(b|i|u|bold|italic|underline)>|\{(/?)(b|i|u|bold|italic|underline)\}|"
-                  r"<font\s+color=(\"[^\">]*\"|'[^'>]*'|[^\s\"'>]+)\s*>|(</font>)", re.I)
+                  r"<font\s+color=(\"[^\">]*\"|'[^'>]*'|[^\s\"'>]+)\s*>|(</font>)|"
+                  r"(<font(?:\s+(?:face|size)=\"[^\">]*\")*\s*>)|<(/?)(em|span|s|small)>", re.I)
+# tags that style nothing: a font tag without colour (typeface / size only) and tags outside b / i / u / font; they are
+# opened and closed like any tag (kind = the lower-case name) and what they enclose keeps the styles in force
+OTHER_TAGS = ("em", "span", "s", "small")
 _HEX = re.compile(r"#([0-9a-fA-F]{2})([0-9a-fA-F]{2})([0-9a-fA-F]{2})([0-9a-fA-F]{2})?$")
 _TIMING = re.compile(r"\s*(\d{2,3}):(\d\d):(\d\d),(\d{3})\s+-->\s+(\d{2,3}):(\d\d):(\d\d),(\d{3})\s*$")
 
@@ -69,8 +73,12 @@ def lex_text_line(s):
       toks.append((t_close if m.group(3) else t_open)(_KIND[m.group(4).lower()]))
     elif m.group(5):
       toks.append(lex_colour(m.group(5)))
-    else:
+    elif m.group(6):
       toks.append(t_close("font"))
+    elif m.group(7):
+      toks.append(t_font("", None))
+    else:
+      toks.append((t_close if m.group(8) else t_open)(m.group(9).lower()))
     pos = m.end()
   if pos < len(s):
     toks.append(t_txt(s[pos:]))
@@ -110,6 +118,11 @@ def render_tok(tok, rng, syntax):
   t = tok["t"]
   if t == "txt":
     return "".join(chr(c) for c in tok["cs"])
+  if tok["k"] in OTHER_TAGS:
+    name = tok["k"] if rng.random() < 0.8 else tok["k"].upper()
+    return "<%s%s>" % ("/" if t == "close" else "", name)
+  if t == "open" and tok["k"] == "font" and not tok["cn"] and not tok["rgba"]:
+    return rng.choice(['<font face="Arial">', '<font size="12">', "<font>", '<font face="A B" size="3">'])
   if t == "open" and tok["k"] == "font":
     if tok["cn"]:
       v = tok["cn"] if rng.random() < 0.7 else tok["cn"].capitalize()
@@ -200,7 +213,7 @@ def gen_word(rng, maxlen=6):
 UNICODE_BREAKS = ["\u2028", "\u2029", "\u0085", "\x0b", "\x0c", "\x1c", "\x1d", "\x1e"]
 
 
-def gen_cue_lines(rng, maxlines=5, crossing=0.15, unclosed=0.15):
+def gen_cue_lines(rng, maxlines=5, crossing=0.15, unclosed=0.15, stray=True):
   """Token lists of the 1..maxlines text lines of one cue: nested / adjacent tags, sometimes crossing or unclosed."""
   nlines = rng.choice([1, 1, 2, 2, 3, 5]) if maxlines >= 5 else rng.randint(1, maxlines)
   toks = []
@@ -217,9 +230,18 @@ def gen_cue_lines(rng, maxlines=5, crossing=0.15, unclosed=0.15):
     nseg = rng.randint(1, max(1, budget // nlines + 1))
     for _ in range(nseg):
       r = rng.random()
+      if stray and rng.random() < 0.04:
+        ks = [k for k in ["b", "i", "u", "font", "em"] if k not in stack]
+        if ks:
+          emit(t_close(rng.choice(ks)))                   # closes nothing: ignored
+          emit(t_txt(gen_word(rng)))
       if r < 0.35 and len(stack) < 4:
         k = rng.choice(["b", "i", "u", "font"])
-        if k == "font":
+        if rng.random() < 0.12:
+          k = rng.choice(OTHER_TAGS)
+        if k == "font" and rng.random() < 0.15:
+          emit(t_font("", None))                          # no colour: styles nothing
+        elif k == "font":
           cn, col = rng.choice(COLOURS)
           emit(t_font(cn, col))
         else:
@@ -336,8 +358,10 @@ def observe(text, io_mode="raw", fps_list=()):
   from ttconv.srt import reader
   from .srtvtt_common import imsc_frames
   obs = {"raised": "", "none": 0, "ps": []}
+  from .core import AltContext, alt_for
   try:
-    doc = reader.to_model(open_text(text, io_mode))
+    with AltContext(alt_for(("srt", len(text), text[:40]))) as ac:
+      doc = reader.to_model(open_text(text, io_mode), None, ac.progress)
   except Exception as ex:  # pylint: disable=broad-except
     obs["raised"] = type(ex).__name__
     return obs, [], None
